@@ -246,6 +246,17 @@ def task_full_priv(a, env):
         if g != m.mul(m.G, d % N):
             r.viol("C18:full:privtopub:text-key", ME + ":replay", {"cfg": "full", "op": "privtxt", "txt": txt.encode("latin-1").hex()},
                    m.mul(m.G, d % N), g)
+    # byte-string keys of other lengths, incl. 64 bytes that happen to be ASCII hex digits / digits / spaces
+    for kb in (b"deadbeef" * 8, b"0123456789abcdef" * 4, b"00" * 31 + b"07", b"12345678" * 8, b" " * 62 + b"0f", b"\x01" * 64,
+               b"ABCDEF01" * 8, b"7", b"\x00" * 33, bytes(range(48)), bytearray(b"deadbeef" * 8)):
+        d = int.from_bytes(bytes(kb), "big")
+        o = L.call(S.privtopub, kb)
+        g = L.to_model(o[1]) if o[0] == "ok" else o
+        r.ev += 1
+        r.dk.add(bytes(kb))
+        if g != m.mul(m.G, d % N):
+            r.viol("C18:full:privtopub:key-of-%d-bytes" % len(kb), ME + ":replay", {"cfg": "full", "op": "privbytes", "kb": bytes(kb).hex()},
+                   m.mul(m.G, d % N), g)
     # published anchor (also in the repository's own suite): the key of d = 1 is G
     r.sample({"op": "privtopub", "d": hex(ds[3])})
     return r
@@ -323,6 +334,29 @@ def task_inv(a, env):
                 r.ev += 1
                 if bad:
                     r.viol("C18:inv:large-partial-quotient", ME + ":replay_inv", {"x": hex(x), "n": hex(n)}, bad[0], bad[1])
+    # values whose inverse is small or next to a power of two (z = inv(Z) = t, P - t): reduction / carry corners
+    fj = getattr(S, "from_jacobian", None)
+    ts = sorted(set(list(range(1, 40)) + [2 ** k + dlt for k in range(8, 80) for dlt in (-1, 0, 1)] + [2 ** 32 + 977 + dlt for dlt in (-2, -1, 0, 1, 2)]
+                    + [977, 2 ** 32, 2 ** 33 - 977, 3 * 2 ** 20 + 5]))
+    Q = m.mul(m.G, 11)
+    for t in ts:
+        for Z in (pow(t, -1, m.p), m.p - pow(t, -1, m.p), t, m.p - t):
+            if fj is not None:
+                jac = (Q[0] * Z * Z % m.p, Q[1] * Z * Z * Z % m.p, Z)
+                o = L.call(fj, jac)
+                got = L.to_model(o[1]) if o[0] == "ok" else o
+                r.ev += 1
+                if got != Q:
+                    r.viol("C18:full:from_jacobian:z-with-small-inverse", ME + ":replay_smallinv", {"t": hex(t), "Z": hex(Z)}, Q, got)
+            # the same through add: two curve points whose x-coordinates differ by Z (when both are on the curve)
+            A = m.mul(m.G, 7)
+            B = m.lift_x((A[0] + Z) % m.p, False)
+            if B is not None:
+                for (X, Y) in ((A, B), (B, A)):
+                    exp, got = _chk_add(S, m, X, Y)
+                    r.ev += 1
+                    if exp != got:
+                        r.viol("C18:full:add:x-difference-with-small-inverse", ME + ":replay_smallinv", {"t": hex(t), "Z": hex(Z)}, exp, got)
     for which in (0, 1):
         for k in range(0, a["w"], max(1, a["w"] // 40)):
             for lbl, exp, got, kk in phi_add_case(k, which):
@@ -335,6 +369,26 @@ def task_inv(a, env):
     r.sample({"inv": "inv(x, q) for every x of every prime q < %d; x in floor(n/phi) +- %d for n = P, N" % (a["hi"], a["w"]),
               "add": "points whose x-coordinates differ by floor(P/phi) + k"})
     return r
+
+
+def replay_smallinv(a):
+    S, m = L.full()
+    Z = int(a["Z"], 16)
+    Q = m.mul(m.G, 11)
+    fj = getattr(S, "from_jacobian", None)
+    if fj is not None:
+        o = L.call(fj, (Q[0] * Z * Z % m.p, Q[1] * Z * Z * Z % m.p, Z))
+        got = L.to_model(o[1]) if o[0] == "ok" else o
+        if got != Q:
+            return {"expected": Q, "observed": got}
+    A = m.mul(m.G, 7)
+    B = m.lift_x((A[0] + Z) % m.p, False)
+    if B is not None:
+        for (X, Y) in ((A, B), (B, A)):
+            exp, got = _chk_add(S, m, X, Y)
+            if exp != got:
+                return {"expected": exp, "observed": got}
+    return None
 
 
 def replay_inv(a):
@@ -529,6 +583,11 @@ def replay(a):
         o = L.call(S.privtopub, txt)
         got = L.to_model(o[1]) if o[0] == "ok" else o
         exp = m.mul(m.G, d % m.n)
+    elif op == "privbytes":
+        kb = bytes.fromhex(a["kb"])
+        o = L.call(S.privtopub, kb)
+        got = L.to_model(o[1]) if o[0] == "ok" else o
+        exp = m.mul(m.G, int.from_bytes(kb, "big") % m.n)
     elif op == "priv":
         d = int(a["d"], 16)
         o = L.call(S.privtopub, d.to_bytes(32, "big"))
